@@ -20,6 +20,7 @@ Record rstate := mkRS {
   rs_prev : observation;           (* the implementation's previous observation *)
   rs_trading : bool; rs_never_disabled : bool;
   rs_valid : bool;                 (* the script is still inside the valid-history domain *)
+  rs_valid12 : bool;               (* ... inside C12's wider domain (every u32 price) *)
   rs_ended : bool }.               (* a panic occurred: nothing after it is compared *)
 
 (** categories: 1 clock, 2 traded volume, 4 market data, 8 orders, 16 trades *)
@@ -52,7 +53,7 @@ Definition rs_init (L : nat) (t0 tick : N) (trading : bool) (impl_obs : list N)
                  | Ok mo => match first_diff 0 (enc_obs mo) impl_obs with
                             | Some i => [RObs (obs_cats mo o) i] | None => [] end
                  | Panic => [RPanic true] end in
-      (Some (mkRS L tick m (ref_new t0 tick trading) o trading trading true false), rep)
+      (Some (mkRS L tick m (ref_new t0 tick trading) o trading trading true true false), rep)
   | _, _ => (None, [RDecode])
   end.
 
@@ -70,7 +71,7 @@ Definition rs_step (st : rstate) (opl impl_out impl_obs : list N) : rstate * lis
   if rs_ended st then (st, [])
   else
   let ended := mkRS (rs_L st) (rs_tick st) (rs_model st) (rs_ref st) (rs_prev st)
-                 (rs_trading st) (rs_never_disabled st) (rs_valid st) true in
+                 (rs_trading st) (rs_never_disabled st) (rs_valid st) (rs_valid12 st) true in
   match dec_op opl with
   | None => (ended, [RDecode])
   | Some o =>
@@ -86,6 +87,7 @@ Definition rs_step (st : rstate) (opl impl_out impl_obs : list N) : rstate * lis
           match dec_out impl_out, dec_obs impl_obs with
           | Some ix, Some o2 =>
               let valid := rs_valid st && valid_op (rs_tick st) (rs_prev st) o in
+              let valid12 := rs_valid12 st && valid_op_gen true (rs_tick st) (rs_prev st) o in
               let r_out := if list_N_eqb (enc_out x) impl_out then [] else [ROut] in
               let r_obs := match first_diff 0 (enc_obs mo) impl_obs with
                            | Some i => [RObs (obs_cats mo o2) i] | None => [] end in
@@ -104,11 +106,14 @@ Definition rs_step (st : rstate) (opl impl_out impl_obs : list N) : rstate * lis
                 else (rs_ref st, []) in
               let r_mon :=
                 if valid then monitors st o ix o2
-                else if rs_valid st && negb (c12_create_ok (rs_tick st) (rs_prev st) o ix o2)
+                else if valid12 then
+                  (let c := c12_ok (rs_L st) (rs_tick st) (rs_prev st) o ix o2 in
+                   if c =? 0 then [] else [RMonitor 12 c])
+                else if rs_valid12 st && negb (c12_create_ok (rs_tick st) (rs_prev st) o ix o2)
                      then [RMonitor 12 1] else [] in
               let trading' := match o with OEnable => true | ODisable => false | _ => rs_trading st end in
               let nd' := rs_never_disabled st && negb (match o with ODisable => true | _ => false end) in
-              (mkRS (rs_L st) (rs_tick st) m' rf' o2 trading' nd' valid false,
+              (mkRS (rs_L st) (rs_tick st) m' rf' o2 trading' nd' valid valid12 false,
                r_out ++ r_obs ++ r_ref ++ r_mon)
           | _, _ => (ended, [RDecode])
           end
